@@ -1,5 +1,8 @@
 (* Proofs/ShippedApprox.v — general facts about the declarative semantics of Spec/Conforms.v
-   (unfolding equations, monotonicity, references) used by the C10 proofs. *)
+   (unfolding equations, monotonicity, references) used by the C10 proofs.  Everything is stated for
+   [approxg sk]: sk = false is the full reading ([approx], [conforms]); sk = true the reading in which
+   dictionary entries whose check has type Any are not looked at ([conforms_skip], what check_type
+   implements — known finding). *)
 From PV Require Import Spec.PageTreeSpec.
 
 Lemma forallb_mono {A} (f g : A -> bool) l :
@@ -26,8 +29,9 @@ Section Approx.
 Variable opq : N -> obj -> bool.
 Variable oc : octx.
 Variable tc : tctx.
-Notation A := (approx opq oc tc).
-Notation A1 := (approx1 opq oc tc).
+Variable sk : bool.
+Notation A := (approxg opq oc tc sk).
+Notation A1 := (approx1g opq oc tc sk).
 
 (* ---------- references ---------- *)
 Lemma deref_nonref f o : is_refb (deref oc f o) = false.
@@ -55,41 +59,41 @@ Lemma A1_disj rec o l p i :
 Proof. reflexivity. Qed.
 Lemma A1_direct rec o t p i :
   is_disj t = false -> is_refb o = false ->
-  A1 rec o (CRep t p i) = negb (ispec_eqb i IReq) && pred_ok opq p o && type_ok rec o t.
+  A1 rec o (CRep t p i) = negb (ispec_eqb i IReq) && pred_ok opq p o && type_okg tc sk rec o t.
 Proof.
-  intros Ht Ho. unfold approx1. simpl.
+  intros Ht Ho. unfold approx1g. simpl.
   destruct t; try discriminate; destruct o; try discriminate; reflexivity.
 Qed.
 Lemma A1_ref rec n g t p i :
   is_disj t = false ->
   A1 rec (ORef n g) (CRep t p i) = negb (ispec_eqb i IForb) && rec (value_of oc (ORef n g)) (CRep t p IAllowed).
-Proof. intros Ht. unfold approx1. simpl. destruct t; try discriminate; reflexivity. Qed.
+Proof. intros Ht. unfold approx1g. simpl. destruct t; try discriminate; reflexivity. Qed.
 Lemma A1_named rec o nm r :
   tctx_get tc nm = Some r -> A1 rec o (CNamed nm) = A1 rec o (rep_chk r).
-Proof. intros H. unfold approx1. simpl. rewrite H. destruct r as [[t p] i]. reflexivity. Qed.
+Proof. intros H. unfold approx1g. simpl. rewrite H. destruct r as [[t p] i]. reflexivity. Qed.
 
 (* ---------- monotonicity: a smaller unfolding accepts more ---------- *)
 Lemma type_ok_mono (r1 r2 : obj -> chk -> bool) o t :
-  (forall o c, r1 o c = true -> r2 o c = true) -> type_ok r1 o t = true -> type_ok r2 o t = true.
+  (forall o c, r1 o c = true -> r2 o c = true) -> type_okg tc sk r1 o t = true -> type_okg tc sk r2 o t = true.
 Proof.
   intros H. destruct t; destruct o; simpl; auto.
   - intros Hx. apply andb_true_iff in Hx as [H1 H2]. rewrite H1. simpl.
     eapply forallb_mono; [|exact H2]. intros x _. apply H.
   - apply forallb2_mono. exact H.
   - intros Hx. apply andb_true_iff in Hx as [H1 H2]. apply andb_true_iff. split.
-    + unfold ents_ok in *. eapply forallb_mono; [|exact H1]. intros e _. cbv beta.
-      destruct (dict_get l (ent_key e)); destruct (ent_opt e); auto.
-    + unfold star_ok in *. destruct star as [[sc so]|]; auto.
+    + unfold ents_okg in *. eapply forallb_mono; [|exact H1]. intros e _. cbv beta.
+      destruct (dict_get l (ent_key e)); destruct (ent_opt e); auto; destruct (sk && is_any tc (ent_chk e)); auto.
+    + unfold star_okg in *. destruct star as [[sc so]|]; auto.
       eapply forallb_mono; [|exact H2]. intros kv _. cbv beta.
-      destruct (existsb _ _); auto. destruct so; auto.
-  - unfold ents_ok. intros Hx. eapply forallb_mono; [|exact Hx]. intros e _. cbv beta.
-    destruct (dict_get d (ent_key e)); destruct (ent_opt e); auto.
+      destruct (existsb _ _); auto. destruct so; auto; destruct (sk && is_any tc sc); auto.
+  - unfold ents_okg. intros Hx. eapply forallb_mono; [|exact Hx]. intros e _. cbv beta.
+    destruct (dict_get d (ent_key e)); destruct (ent_opt e); auto; destruct (sk && is_any tc (ent_chk e)); auto.
 Qed.
 
 Lemma A1_mono (r1 r2 : obj -> chk -> bool) o c :
   (forall o c, r1 o c = true -> r2 o c = true) -> A1 r1 o c = true -> A1 r2 o c = true.
 Proof.
-  intros H. unfold approx1. destruct (resolve tc c) as [r|]; auto.
+  intros H. unfold approx1g. destruct (resolve tc c) as [r|]; auto.
   destruct (r_ty r) eqn:Et.
   all: try (destruct o; intros Hx; rewrite ?andb_true_iff in *;
             repeat match goal with Hc : _ /\ _ |- _ => destruct Hc end; repeat split; auto;
@@ -157,39 +161,41 @@ Proof.
 Qed.
 
 (* ---------- dictionaries ---------- *)
+(* enough for an entry list to be satisfied (whatever [sk]) *)
 Lemma ents_ok_forall rec d ents :
-  ents_ok rec d ents = true <->
-  forall e, In e ents ->
+  (forall e, In e ents ->
     match dict_get d (ent_key e), ent_opt e with
     | None, KReq => False
     | None, _ => True
     | Some _, KForb => False
     | Some v, _ => rec v (ent_chk e) = true
-    end.
+    end) -> ents_okg tc sk rec d ents = true.
 Proof.
-  unfold ents_ok. rewrite forallb_forall. split; intros H e He; specialize (H e He).
-  - destruct (dict_get d (ent_key e)); destruct (ent_opt e); auto; discriminate.
-  - destruct (dict_get d (ent_key e)); destruct (ent_opt e); auto; contradiction.
+  intros H. unfold ents_okg. apply forallb_forall. intros e He. specialize (H e He).
+  destruct (dict_get d (ent_key e)); destruct (ent_opt e); auto; try contradiction;
+    destruct (sk && is_any tc (ent_chk e)); auto.
 Qed.
+(* one entry that makes the list fail: the value check counts only if the entry is looked at *)
 Lemma ents_ok_false rec d ents e :
   In e ents ->
   match dict_get d (ent_key e), ent_opt e with
   | None, KReq => True
   | None, _ => False
   | Some _, KForb => True
-  | Some v, _ => rec v (ent_chk e) = false
-  end -> ents_ok rec d ents = false.
+  | Some v, _ => sk && is_any tc (ent_chk e) = false /\ rec v (ent_chk e) = false
+  end -> ents_okg tc sk rec d ents = false.
 Proof.
-  intros He H. destruct (ents_ok rec d ents) eqn:E; auto.
-  rewrite ents_ok_forall in E. specialize (E e He).
-  destruct (dict_get d (ent_key e)); destruct (ent_opt e); try contradiction; congruence.
+  intros He H. destruct (ents_okg tc sk rec d ents) eqn:E; auto.
+  unfold ents_okg in E. rewrite forallb_forall in E. specialize (E e He). cbv beta in E.
+  destruct (dict_get d (ent_key e)); destruct (ent_opt e); try contradiction; try discriminate;
+    destruct H as [H1 H2]; rewrite H1 in E; congruence.
 Qed.
 Lemma A_dict_direct n d ents p i :
   A (S n) (ODict d) (CRep (TDict ents None) p i)
-  = negb (ispec_eqb i IReq) && pred_ok opq p (ODict d) && ents_ok (A n) d ents.
+  = negb (ispec_eqb i IReq) && pred_ok opq p (ODict d) && ents_okg tc sk (A n) d ents.
 Proof. rewrite A_S, A1_direct by reflexivity. simpl. rewrite andb_true_r. reflexivity. Qed.
 Lemma A_dict_plain n d ents :
-  A (S n) (ODict d) (CRep (TDict ents None) None IAllowed) = ents_ok (A n) d ents.
+  A (S n) (ODict d) (CRep (TDict ents None) None IAllowed) = ents_okg tc sk (A n) d ents.
 Proof. rewrite A_dict_direct. reflexivity. Qed.
 Lemma A_ref_plain n a b t :
   is_disj t = false ->
